@@ -52,15 +52,17 @@ PROGRAMS = {
     "C03": ["poll_get_mut_write", "poll_is_unique_then_write", "thin_with_arc_mut_get_mut", "declining_try_unwrap_vs_gates",
             "poll_get_mut_write@release", "deprecated_write_vs_reader@release"],
     "C12": ["union_shapes"],
+    "C04": ["convert_vs_count_observer"],
+    "C10": ["convert_vs_count_observer"],
     "C15": ["deprecated_write_vs_reader", "deprecated_write_vs_reader@release"],
     "C08": ["make_mut_vs_readers", "offset_make_mut_vs_readers", "offset_make_mut_overaligned"],
     "C09": ["racing_try_unwrap_2t", "racing_try_unwrap_3t", "try_unwrap_vs_drop", "unwrap_or_clone_vs_drop",
-            "try_unique_vs_drop", "declining_try_unwrap_vs_gates", "try_unique_vs_drop@release", "try_unwrap_vs_drop@release"],
+            "try_unique_vs_drop", "declining_try_unwrap_vs_gates", "try_unique_vs_drop@release", "try_unwrap_vs_drop@release", "sole_owner_gates"],
 }
 # programs of another property that exercise the same gate / hand-over and are worth running too
 ALSO = {
-    "C03": ["make_mut_vs_readers", "try_unique_vs_drop"],
-    "C08": ["poll_get_mut_write"],
+    "C03": ["make_mut_vs_readers", "try_unique_vs_drop", "sole_owner_gates"],
+    "C08": ["poll_get_mut_write", "sole_owner_gates"],
     "C09": ["poll_is_unique_then_write"],
 }
 FAILING = ("ub", "assert-failed")
@@ -572,3 +574,22 @@ def main(argv=None):
 
 if __name__ == "__main__":
     sys.exit(main())
+
+
+def observer_pass(ctx, prop, programs=("convert_vs_count_observer",), native_rounds=20000, nseeds=2):
+    """count-neutral operations under concurrent observation (C04: "not even while the borrow is in use"; C10:
+    "thin->fat->thin conversions ... without touching the count"): the litmus program under Miri (a few seeds) and natively
+    (real threads, many rounds).  A failing run is a concrete failing input (program + seed / native command)."""
+    programs = list(programs)
+    res = run_suite(ctx, programs, seeds(ctx, nseeds if not ctx.thorough() else 12))
+    nat = run_native(ctx, programs, rounds=native_rounds if not ctx.thorough() else native_rounds * 10, timeout_s=120)
+    bad = failing(res) + failing(nat)
+    ctx.coverage["observer_litmus"] = {"programs": programs, "miri": status_counts(res), "native": status_counts(nat), "native_rounds": native_rounds}
+    ctx.coverage["evaluations"] = ctx.coverage.get("evaluations", 0) + len([r for r in res + nat if r["status"] in ("ok",) + FAILING])
+    ctx.oblige("litmus:count-neutral-under-observation", not bad, "%d failing runs" % len(bad))
+    if bad:
+        r = bad[0]
+        how = "run natively (%d rounds, real threads)" % r.get("rounds", 0) if r.get("native") else "under Miri with -Zmiri-seed=%d" % r["seed"]
+        body = ["failing input: litmus program `%s` %s:" % (r["program"], how), "  replay: " + r["cmd"], r["report"]]
+        ctx.violation("native" if r.get("native") else "miri", "\n".join(body), True)
+    return bad
